@@ -75,6 +75,8 @@ def vunit_case(rng):
     if rng.random() < 0.2:
         toks = hostile.lex(text)
         text = "".join(hostile.mutate(toks, rng, 1))
+    if rng.random() < 0.15:
+        text = hostile.truncate_with_tail(text, rng)
     return text
 
 
